@@ -1108,3 +1108,76 @@ def tlvstruct_family(run, replay=None):
                                        'item order follows field order'],
                           rule_text='synthetic struct types covering every supported field kind (8/16/32/64-bit integers, float32, bool, string, bytes, nested structs, tagged and inline lists) and the RTP message types of the library (setup endpoints, selected / supported stream configurations, streaming status), 40 (quick) / 1500 (thorough) seeded values each; truncated, damaged and random byte strings into Unmarshal; distinct = shape; non-trivial = all',
                           nontrivial=lambda b: True, extra_cov=extra, fpfun=fp)
+
+
+# =====================================================================================================
+# Ids (C14)
+# =====================================================================================================
+
+@register('C14')
+def ids_family(run, replay=None):
+    def gen(run):
+        thorough = run.tier == 'thorough'
+        run.model_check('IdsMC', 'Ids_MC.cfg', workers=8)
+        words = run.generate('IdsMC', cfgtext='CONSTANTS\n  MaxAcc = %d\n  Explicit = {0, 1, 2, 3}\n  Shapes <- ShapesDef\n  Weak = {}\nINIT Init\nNEXT Next\nINVARIANT EmitWord\nCHECK_DEADLOCK FALSE\n' % (4 if thorough else 3), timeout=1200, heap='6g')
+        words = [[{k: v for k, v in s.items() if k != 'accepted'} for s in w] for w in words]
+        nall = len(words)
+        if thorough:
+            words = sample(words, 60000, run.seed)
+        attacks = []
+        for g in ["duplicate_rejected", "iid_counter_starts_at_one"]:
+            a = run.generate('IdsMC', cfgtext='CONSTANTS\n  MaxAcc = 3\n  Explicit = {0, 1, 2, 3}\n  Shapes <- ShapesDef\n  Weak = %s\nINIT Init\nNEXT Next\nINVARIANT NoAttack\nCHECK_DEADLOCK FALSE\n' % tla_set([g]), expect_violation=True)
+            if not a:
+                raise ToolTrouble('no attack word for guard %s' % g)
+            attacks.append((g, [{k: v for k, v in s.items() if k != 'accepted'} for s in a[0]]))
+        return [('word', words)] + [('attack:' + g, [a]) for g, a in attacks], dict(construction_words_enumerated=nall, words_replayed=len(words), exhaustive=not thorough or nall == len(words))
+
+    def extra(lines, behs):
+        return dict(containers_built=len(lines), with_library_constructors=sum(1 for x in lines if x.get('variant', -1) >= 0),
+                    characteristics_in_json=sum(len(x.get('chars', [])) for x in lines))
+    return generic_family(run, replay, hcv='ids', trace_mod='IdsTrace', gen=gen,
+                          rules={'UniqueRule': 'C14', 'StableRule': 'C14', 'WellFormedRule': 'C14', 'NoPanic': 'C14'}, level='model_checking',
+                          assumptions=['accessories are built completely (services and characteristics added) before they are added to a container, as NewIPTransport does',
+                                       'the served attribute database is the JSON encoding of the container, which is what /accessories writes',
+                                       'the numbering scheme itself is not pinned: the verdict comes from uniqueness, non-zero-ness, equality of two independent builds and well-formedness'],
+                          rule_text='every construction word of up to 3 (thorough 4) accessories over explicit ids 0..3 and 5 service shapes (an initial-state-free enumeration by TLC), executed with real accessory / service / characteristic objects; every accessory constructor of the library substituted for the abstract accessories in turn; each container built twice; distinct = construction word; non-trivial = at least two accessories or an explicit id',
+                          nontrivial=lambda b: len(b['steps']) >= 2 or any(s.get('explicit') for s in b['steps']), extra_cov=extra,
+                          fpfun=lambda rule, b, line: '%s/%s' % (rule, 'library-constructors' if line.get('variant', -1) >= 0 else 'explicit=%s' % ','.join(str(s.get('explicit')) for s in b['steps'][:4])))
+
+
+# =====================================================================================================
+# Catalog (C15) - no dynamics: the contract evaluated by TLC over a finite snapshot
+# =====================================================================================================
+
+@register('C15')
+def catalog_family(run, replay=None):
+    run.build_harness()
+    cpath = os.path.join(run.dir, 'ctors.ndjson')
+    mpath = os.path.join(run.dir, 'meta.ndjson')
+    tpath = os.path.join(run.dir, 'trace.ndjson')
+    out = run.harness('catalog', ['--trace', cpath, '--seed', run.seed, '--tier', run.tier])
+    log('  ' + out.strip().splitlines()[-1][:300])
+    p = subprocess.run([sys.executable, os.path.join(ROOT, 'bin', 'metanorm.py'), '/repo/gen/metadata.json', mpath], stdout=subprocess.PIPE, stderr=subprocess.STDOUT)
+    if p.returncode != 0:
+        raise ToolTrouble('metadata normalisation failed: ' + p.stdout.decode(errors='replace')[-800:])
+    log('  ' + p.stdout.decode().strip())
+    lines = read_ndjson(mpath) + read_ndjson(cpath)
+    with open(tpath, 'w') as f:
+        for x in lines:
+            f.write(json.dumps(x) + '\n')
+    viols, ok, states = run.validate('Catalog', 'Catalog.cfg', tpath)
+    behs = [dict(id=k, kind=n, steps=[dict(a=n)]) for k, n in ((1, 'ctor-char'), (2, 'ctor-svc'), (3, 'ctor-acc'), (4, 'meta-char'), (5, 'meta-svc'))]
+    nm = sum(1 for x in lines if x['ev'].startswith('meta'))
+    nc = len(lines) - nm
+    cov = dict(explanation='C15 has no state and no transitions. Catalog.tla states the contract (Usable, DeclaredType, HasConstructor, Conforms, DefaultOK, ServiceOK) and TLC evaluates it over the complete snapshot: every record of gen/metadata.json (normalised by bin/metanorm.py, which shares no code with the Go generator) and one record per object returned by every exported constructor found in /repo/characteristic, /repo/service and /repo/accessory at build time, called under recover.',
+               evaluations=len(lines), distinct_nontrivial=nc, exhaustive=True,
+               rule='one record per metadata entry and per constructor; distinct = record; non-trivial = constructor records (each is compared with its declared type constant and, when its type id occurs in the metadata, field by field with the metadata entry)',
+               samples=[lines[0], lines[nm], lines[-1]], metadata_records=nm, constructor_records=nc, states=states, transitions=states,
+               traces_validated_against_impl=1,
+               constructors=dict(characteristic=sum(1 for x in lines if x['ev'] == 'ctor-char'), service=sum(1 for x in lines if x['ev'] == 'ctor-svc'), accessory=sum(1 for x in lines if x['ev'] == 'ctor-acc')))
+
+    def fp(rule, b, line):
+        return '%s/%s' % (rule, line.get('name'))
+    return finish(run, 'other', {}, behs, lines, viols, cov,
+                  ['constructors are found by a regular-expression scan of the gofmt-formatted sources (exported New* functions with the known argument shapes)',
+                   'numbers are compared as canonical decimal strings (TLC has no reals)'], 'catalog', fpfun=fp)
